@@ -1715,6 +1715,14 @@ func (s *Service) runPipeline(rp *runnablePipeline) error {
 	// unconditionally, including on error, so the cleanup goroutine (already
 	// blocked on it) is never left hanging.
 	err := s.pipelines.UpdateStatus(ctx, rp.pipeline.ID, pipeline.StatusRunning, "")
+	if err != nil {
+		// Start is about to report failure, so the run must not stay alive
+		// behind the caller's back (connectors open, records flowing, the
+		// store still holding the previous status). Kill it with a fatal
+		// error, like a force stop: the workers wind down and the cleanup
+		// goroutine finalizes the run as degraded with this cause.
+		rp.t.Kill(cerrors.FatalError(cerrors.Errorf("could not store the running status: %w", err)))
+	}
 	close(startupDone)
 	return err
 }
